@@ -168,7 +168,13 @@ type compiled struct {
 
 var compileCache = map[string]*compiled{}
 
-func gqlType(t *TShape, nn bool, types map[string]*graphql.ObjectType) graphql.Type {
+type schemaTypes struct {
+	objects map[string]*graphql.ObjectType
+	named   map[string]graphql.Type      // the type a field holding the object is declared with
+	extra   []graphql.NamedType          // types only reachable through an interface
+}
+
+func gqlType(t *TShape, nn bool, types *schemaTypes) graphql.Type {
 	var out graphql.Type
 	switch t.Kind {
 	case "int":
@@ -176,7 +182,8 @@ func gqlType(t *TShape, nn bool, types map[string]*graphql.ObjectType) graphql.T
 	case "list":
 		out = graphql.NewListType(gqlType(t.Elem, t.ElemNN, types))
 	case "object":
-		out = objectType(t, types)
+		objectType(t, types)
+		out = types.named[t.TypeName]
 	}
 	if nn {
 		return graphql.NewNonNullType(out)
@@ -184,12 +191,16 @@ func gqlType(t *TShape, nn bool, types map[string]*graphql.ObjectType) graphql.T
 	return out
 }
 
-func objectType(t *TShape, types map[string]*graphql.ObjectType) *graphql.ObjectType {
-	if ot, ok := types[t.TypeName]; ok {
+// objectType declares T<n> for the object shape and, for an abstract position, the interface
+// I<n> (implemented by T<n> and by X<n>, an object type with the same fields that no value ever
+// belongs to) or the union U<n> = X<n> | T<n>.
+func objectType(t *TShape, types *schemaTypes) *graphql.ObjectType {
+	if ot, ok := types.objects[t.TypeName]; ok {
 		return ot
 	}
 	ot := &graphql.ObjectType{Name: t.TypeName, Fields: map[string]*graphql.FieldDefinition{}}
-	types[t.TypeName] = ot
+	types.objects[t.TypeName] = ot
+	types.named[t.TypeName] = ot
 	for i, f := range t.Fields {
 		if f.Typename {
 			continue
@@ -199,6 +210,30 @@ func objectType(t *TShape, types map[string]*graphql.ObjectType) *graphql.Object
 	ot.IsTypeOf = func(v interface{}) bool {
 		o, ok := v.(*objVal)
 		return ok && o.shape.TypeName == ot.Name
+	}
+	if t.Abstract == "" {
+		return ot
+	}
+	num := strings.TrimPrefix(t.TypeName, "T")
+	other := &graphql.ObjectType{Name: "X" + num, Fields: map[string]*graphql.FieldDefinition{},
+		IsTypeOf: func(interface{}) bool { return false }}
+	for name, def := range ot.Fields {
+		other.Fields[name] = &graphql.FieldDefinition{Type: def.Type, Resolve: func(graphql.FieldContext) (interface{}, error) {
+			return nil, errors.New("harness: resolver of a type no value belongs to")
+		}}
+	}
+	switch t.Abstract {
+	case "iface":
+		iface := &graphql.InterfaceType{Name: "I" + num, Fields: map[string]*graphql.FieldDefinition{}}
+		for name, def := range ot.Fields {
+			iface.Fields[name] = &graphql.FieldDefinition{Type: def.Type}
+		}
+		ot.ImplementedInterfaces = []*graphql.InterfaceType{iface}
+		other.ImplementedInterfaces = []*graphql.InterfaceType{iface}
+		types.named[t.TypeName] = iface
+		types.extra = append(types.extra, other, ot)
+	case "union":
+		types.named[t.TypeName] = &graphql.UnionType{Name: "U" + num, MemberTypes: []*graphql.ObjectType{other, ot}}
 	}
 	return ot
 }
@@ -216,12 +251,14 @@ func compile(c *Case) (*compiled, error) {
 	if len(compileCache) > 20000 {
 		compileCache = map[string]*compiled{}
 	}
-	types := map[string]*graphql.ObjectType{}
+	types := &schemaTypes{objects: map[string]*graphql.ObjectType{}, named: map[string]graphql.Type{}}
 	root := objectType(c.Shape, types)
 	def := &graphql.SchemaDefinition{Query: root}
 	if c.Mutation {
 		def = &graphql.SchemaDefinition{Query: dummyQuery, Mutation: root}
 	}
+	def.AdditionalTypes = types.extra
+	def.Directives = map[string]*graphql.DirectiveDefinition{"skip": graphql.SkipDirective, "include": graphql.IncludeDirective}
 	s, err := graphql.NewSchema(def)
 	if err != nil {
 		return nil, fmt.Errorf("schema rejected: %v", err)
